@@ -104,9 +104,34 @@ class Scan:
     def owner(self, node) -> FuncInfo | None:
         return self._owner.get(id(node))
 
-    def attr_sites(self, attr: str, modules_prefix: tuple[str, ...] = ("cascade", "earthkit")):
+    def attr_sites(self, attr: str, modules_prefix: tuple[str, ...] = ("cascade", "earthkit"), owner: str | None = None):
         """Yield (fi, node, kind, detail) for every write-ish use of `<expr>.attr`:
-        kind in store / aug / del / mutcall(method) / substore / subdel / read."""
+        kind in store / aug / del / mutcall(method) / substore / subdel / read.
+        `owner` (qualified class name): `self.attr` inside a class that is not `owner` (or a subclass) is that class's own attribute of the
+        same name, not the field in question — such sites are skipped; any other receiver is kept (its type is not known here)."""
+        for fi, n, kind, det in self._attr_sites(attr, modules_prefix):
+            if owner is not None:
+                recv = None
+                if kind in ("store", "del"):
+                    recv = n.value
+                elif kind == "aug":
+                    recv = n.target.value
+                elif kind == "mutcall":
+                    recv = n.func.value.value
+                else:
+                    b = n.func.value if isinstance(n, ast.Call) else n
+                    while isinstance(b, ast.Subscript):
+                        b = b.value
+                    recv = b.value if isinstance(b, ast.Attribute) else None
+                if isinstance(recv, ast.Name) and recv.id == "self":
+                    f2 = fi
+                    while f2 is not None and f2.cls is None:
+                        f2 = f2.parent
+                    if f2 is not None and f2.cls is not None and owner not in self.repo.class_mro(f2.cls.qual):
+                        continue
+            yield fi, n, kind, det
+
+    def _attr_sites(self, attr: str, modules_prefix: tuple[str, ...] = ("cascade", "earthkit")):
         from .calls import MUTATORS
 
         for fi in self.repo.all_funcs():
